@@ -177,6 +177,31 @@ func c05RW(ctx *runCtx, r, w, rq int, mask int) {
 			ctx.rep.Violate(fmt.Sprintf("c05|get-wrong-error|R=%d|RQ=%d|unreachable=%d|got=%s", r, rq, len(down), gg), desc+" (want the read-quorum error)", map[string]interface{}{"config": spec, "via": v.name})
 		}
 	}
+	// ---- the owner itself has no copy (as after a failover): only obtained COPIES count towards the read quorum
+	if len(down) == 0 && r >= 2 {
+		lone := keyInPart("lone")
+		if err := sess.ViaMember("E", owner).Put(bg, lone, []byte("lone-value"), paths.PutOpts{}); err == nil {
+			_ = owner.V.DMap.VerifDeleteEntryAt(partitions.PRIMARY, dmap, lone)
+			copies := r - 1
+			for _, v := range vias {
+				cx, cancel := context.WithTimeout(bg, 30*time.Second)
+				g, err := v.cl.Get(cx, lone)
+				cancel()
+				cls := paths.Class(err)
+				ctx.rep.Eval(1)
+				ctx.rep.Distinct(fmt.Sprintf("get-owner-without-copy|R=%d|RQ=%d|copies=%d|via=%s", r, rq, copies, v.name))
+				desc := fmt.Sprintf("%s: the owner has no copy, %d backup copies exist: Get via %s returned (%q, %q)", spec, copies, v.name, g.Value, cls)
+				switch {
+				case copies >= rq && (cls != "ok" || string(g.Value) != "lone-value"):
+					ctx.rep.Violate(fmt.Sprintf("c05|get-failed-although-quorum-met|owner-without-copy|R=%d|RQ=%d", r, rq), desc, map[string]interface{}{"config": spec, "via": v.name})
+				case copies < rq && cls == "ok":
+					ctx.rep.Violate(fmt.Sprintf("c05|get-answered-below-quorum|owner-without-copy|R=%d|RQ=%d|copies=%d", r, rq, copies), desc, map[string]interface{}{"config": spec, "via": v.name})
+				case copies < rq && cls != "read quorum":
+					ctx.rep.Violate(fmt.Sprintf("c05|get-wrong-error|owner-without-copy|R=%d|RQ=%d|got=%s", r, rq, strings.SplitN(cls, ":", 2)[0]), desc, map[string]interface{}{"config": spec, "via": v.name})
+				}
+			}
+		}
+	}
 	ctx.rep.Sample(map[string]interface{}{"config": spec, "owner": owner.Name, "backup_owners": len(backups), "unreachable": len(down), "reachable_copies": reachable})
 }
 
@@ -215,6 +240,10 @@ func c05MCQ(ctx *runCtx, mcq int) {
 	}
 	for i := 0; i < 40; i++ {
 		_ = dm.Put(bg, fmt.Sprintf("k%d", i), fmt.Sprintf("v%d", i))
+	}
+	if conn, err := respc.Dial(survivor.Name); err == nil {
+		_, _ = conn.Do(5*time.Second, "DM.PUT", "c05-net", "k", "v") // makes the name known to the member without opening it here
+		conn.Close()
 	}
 	// stop members until the survivor sees fewer than MCQ
 	stop := 3 - mcq + 1
@@ -266,11 +295,15 @@ func c05MCQ(ctx *runCtx, mcq int) {
 			ctx.rep.Violate(fmt.Sprintf("c05|mcq|cmd=%s|not-refused", name), fmt.Sprintf("%s: %v was answered with %s instead of the cluster-quorum error", spec, cmd, rep.String()), map[string]interface{}{"config": spec, "cmd": cmd, "reply": rep.String()})
 		}
 	}
-	_, err = survivor.Emb.NewDMap("c05-mcq-new")
-	ctx.rep.Eval(1)
-	ctx.rep.Distinct(fmt.Sprintf("mcq=%d|NewDMap", mcq))
-	if paths.Class(err) != "cluster quorum" {
-		ctx.rep.Violate("c05|mcq|NewDMap|not-refused", fmt.Sprintf("%s: NewDMap on the starved member returned %v", spec, err), map[string]interface{}{"config": spec})
+	// a new name, a name opened through this member before the starvation, and a name this
+	// member only knows from requests that arrived over the network
+	for _, nm := range []struct{ what, name string }{{"new-name", "c05-mcq-new"}, {"name-opened-before", "c05-mcq"}, {"name-known-from-network", "c05-net"}} {
+		_, err = survivor.Emb.NewDMap(nm.name)
+		ctx.rep.Eval(1)
+		ctx.rep.Distinct(fmt.Sprintf("mcq=%d|NewDMap|%s", mcq, nm.what))
+		if paths.Class(err) != "cluster quorum" {
+			ctx.rep.Violate("c05|mcq|NewDMap|not-refused|"+nm.what, fmt.Sprintf("%s: NewDMap(%s: %s) on the starved member returned %v", spec, nm.name, nm.what, err), map[string]interface{}{"config": spec, "which": nm.what})
+		}
 	}
 	after := c05Digest(survivor, 7)
 	if after != before {
